@@ -451,6 +451,7 @@ type driver struct {
 	tags        map[string]*tagStat
 	pruned      int
 	bigStack    bool
+	deathsAt    map[string]int
 	cacheDeaths int
 	stageUs     map[string]int64
 	deferred    map[int]map[string]bool // input -> stages executed in the first pass (inputs with a deferred stage only)
@@ -809,6 +810,14 @@ func (d *driver) run() {
 					writeDeath(deathRec{StageTag: st, Key: key, Part: d.fam.name, Idx: idx})
 				}
 			}
+			// an optional stage that keeps killing the process with one key is switched off for the rest of the job
+			if g := disableName(info.stage); strings.HasPrefix(g, "fsreader.") && info.tag == "" {
+				d.deathsAt[g+"|"+key]++
+				if d.deathsAt[g+"|"+key] >= 3 {
+					d.disabled = appendUniq(d.disabled, g)
+					d.res.Caps = appendUniq(d.res.Caps, fmt.Sprintf("stage group %s is switched off for the rest of a shard after 3 process deaths there with %s", g, key))
+				}
+			}
 			pending[idx] = append(pending[idx], r)
 			d.skip[idx] = append(d.skip[idx], info.stage)
 			from = idx
@@ -920,7 +929,7 @@ func partOf(fam family, tier string) runner.Part {
 		Name:   fam.name,
 		Shards: fam.shards[tier],
 		Run: func(c *runner.Ctx) *runner.Result {
-			d := &driver{fam: fam, ctx: c, res: &runner.Result{Outcomes: map[string]int{}}, hashes: map[string]struct{}{}, seenKeys: map[string]bool{}, keyVia: map[string]map[string]bool{}, guarded: map[string][]string{}, skip: map[int][]string{}, tags: map[string]*tagStat{}, deferred: map[int]map[string]bool{}, stageUs: map[string]int64{}}
+			d := &driver{fam: fam, ctx: c, res: &runner.Result{Outcomes: map[string]int{}}, hashes: map[string]struct{}{}, seenKeys: map[string]bool{}, keyVia: map[string]map[string]bool{}, deathsAt: map[string]int{}, guarded: map[string][]string{}, skip: map[int][]string{}, tags: map[string]*tagStat{}, deferred: map[int]map[string]bool{}, stageUs: map[string]int64{}}
 			d.run()
 			// reachability: which stages reached each crash site
 			for i := range d.res.Violations {
